@@ -1,7 +1,7 @@
 //! C13: a simulation starts behind a barrier and ends with the requested status.
 
 use crate::engine::*;
-use crate::ensure;
+use crate::{ensure, fail};
 use crate::sim::*;
 use async_trait::async_trait;
 use elvis::applications::{Capture, Forward, PingPong, SendMessage};
@@ -36,7 +36,7 @@ struct Stamps {
     reached: Vec<(usize, u64, Duration)>,
     passed: Vec<(usize, u64, Duration)>,
     /// (logical order, requested status) taken immediately before a shutdown request (no await in between)
-    requests: Vec<(u64, Option<u32>)>,
+    requests: Vec<(u64, Option<u32>, Duration)>,
 }
 
 struct Actor<const N: usize> {
@@ -62,7 +62,7 @@ impl<const N: usize> Protocol for Actor<N> {
         match self.behaviour {
             Behaviour::Shutter(ms, status) => {
                 tokio::time::sleep(Duration::from_millis(ms)).await;
-                self.stamps.lock().unwrap().requests.push((self.wire.tick(), status));
+                self.stamps.lock().unwrap().requests.push((self.wire.tick(), status, self.wire.now()));
                 match status {
                     Some(n) => shutdown.shut_down_with_status(ExitStatus::Status(n)),
                     None => shutdown.shut_down(),
@@ -106,18 +106,31 @@ enum Role {
     Bare,
 }
 
-pub struct BarrierAndStatus;
+pub struct BarrierAndStatus {
+    /// multi-thread runtime in real time instead of the current-thread runtime under virtual time
+    pub mt: bool,
+}
 
 impl Check for BarrierAndStatus {
     fn id(&self) -> &'static str {
-        "C13"
+        if self.mt {
+            "C13.multithread"
+        } else {
+            "C13"
+        }
     }
     fn rule(&self) -> String {
+        if self.mt {
+            return "the machine sets of part C13 with times scaled to real time (slow initialisers 0..60 ms, shutdown requests 1..180 ms after the barrier, timeouts 1..800 ms, no Forward+ARP machines) on the tokio multi_thread runtime with 2/4/8 workers; oracle: (1) as in C13 by the logical clock (an atomic counter read by the harness protocols immediately before they wait on the barrier and by the frame hook / recorder on every frame and demux): no frame or demux before the last harness protocol reached the barrier, none at all if one never does, and none before the slowest initialiser's sleep has elapsed; (2) the returned status was requested by somebody (or TimedOut with a timeout, Exited without any request), and no other request was made more than 250 ms (the timeout: 400 ms) of measured time before the winning one; (3) with a timeout the call returns within timeout + 1 s + 1 s of scheduling slack; a run that must end returns at all (5 s slack). non-trivial: as in C13. distinct: hash of decoded configuration".into();
+        }
         "generated: 0..6 machines on one network, each with a role built from the repository's own protocols and applications (sender = Pci+Ipv4+Udp(+Arp)+SendMessage transmitting right after the barrier; receiver = recording application (+Capture that never completes); idle PingPong pair member, Forward(+Arp), DnsServer+SocketAPI, Tcp only, bare) plus 0..3 harness applications per machine: SlowInit(d) sleeping d before the barrier, Shutter(t, status) requesting a shutdown t after the barrier, NeverReturns, NeverReachesBarrier (at most one per case); timeout none or 1 ms..1 h, shutdown times distinct from the timeout, pairwise distinct or (1/4 of the cases) several in the same instant, in 1/10 of the cases 18 requests with pairwise different statuses in one instant; oracle: (1) no frame is on any network and no application receives anything before every harness application has reached the barrier (logical clock shared by stamps and the frame hook) nor before the longest SlowInit has elapsed, and nothing at all if somebody never reaches it; (2) the returned status is that of the earliest shutdown request made before the timeout (within one instant: the request issued first, by logical stamps taken immediately before each request), else TimedOut (with a timeout) or Exited (without; only generated with machines that keep no shutdown handle or with a shutter); (3) with a timeout the call returns no later than timeout + 1 s of virtual time, and exactly at the winning shutter's time when there is one. non-trivial: >= 2 machines with a slow initialiser and a sender that transmits right after the barrier, or >= 2 competing shutdowns, or a machine that never finishes / never reaches the barrier. distinct: hash of decoded configuration".into()
     }
     fn assumptions(&self) -> Vec<String> {
+        if self.mt {
+            return vec!["the multi-thread schedule is sampled, not owned: each case is one schedule chosen by the operating system; real-time margins (250 ms between competing requests, 400 ms against the timeout, 1 s on the return bound) make the oracle insensitive to scheduling jitter".into()];
+        }
         vec![
-            "runs on the current-thread runtime under virtual time; task interleavings of the multi-thread runtime are not owned by the harness".into(),
+            "part C13 runs on the current-thread runtime under virtual time; part C13.multithread samples the multi-thread runtime".into(),
             "Forward together with ARP on one machine is generated in 1 of 16 cases only: open known finding prebarrier_arp_from_forward".into(),
         ]
     }
@@ -126,10 +139,13 @@ impl Check for BarrierAndStatus {
     }
     fn run(&self, e: &mut Entropy, ctx: &mut Ctx) -> Result<(), Failure> {
         // crowd: many shutdown requests with different statuses in the same instant (more than the shutdown channel holds)
+        let mt = self.mt;
+        let workers = *e.pick(&[2usize, 4, 8]);
+        let wide = e.chance(1, 3);
         let crowd = e.chance(1, 10);
         let same_instant = crowd || e.chance(1, 4);
         let nm = if crowd { 6 } else { e.weighted(&[1, 2, 3, 3, 2, 2, 1]) };
-        let lift_forward_arp = e.chance(1, 16);
+        let lift_forward_arp = e.chance(1, 16) && !mt;
         // ARP is used by all senders and receivers of a case or by none (a sender with ARP needs a receiver that answers)
         let arp_case = e.chance(1, 3);
         let mut roles = vec![];
@@ -157,18 +173,18 @@ impl Check for BarrierAndStatus {
             used_times.push(t);
             t
         };
-        let crowd_t = 1 + e.choose(500) as u64;
+        let crowd_t = 1 + e.choose(if mt { 100 } else { 500 }) as u64;
         let mut serial = 0u32;
         for _ in 0..nm {
             let k = if crowd { 3 } else { e.weighted(&[3, 4, 2, 1]) };
             let mut v = vec![];
             for _ in 0..k {
                 let b = match if crowd { 1 } else { e.weighted(&[5, 5, 1, 1]) } {
-                    0 => Behaviour::SlowInit(*e.pick(&[0u64, 1, 5, 50, 700, 5000])),
+                    0 => Behaviour::SlowInit(if mt { *e.pick(&[0u64, 1, 5, 20, 60, 60]) } else { *e.pick(&[0u64, 1, 5, 50, 700, 5000]) }),
                     1 => {
                         // statuses are pairwise distinct so that the winner can be told apart
                         serial += 1;
-                        let t = if crowd || (same_instant && e.chance(2, 3)) { crowd_t } else { fresh_time(e, 1000) };
+                        let t = if crowd || (same_instant && e.chance(2, 3)) { crowd_t } else { fresh_time(e, if mt { 60 } else { 1000 }) * if mt && wide { 5 } else { 1 } };
                         Behaviour::Shutter(t, if crowd || e.bool() { Some(serial * 1000 + e.choose(200) as u32) } else { None })
                     }
                     2 => Behaviour::NeverReturns,
@@ -194,6 +210,8 @@ impl Check for BarrierAndStatus {
         } else {
             let mut t = match e.weighted(&[2, 3, 2, 1]) {
                 0 => 1 + e.choose(20) as u64,
+                1 if mt => 20 + e.choose(280) as u64,
+                _ if mt => 400 + e.choose(if wide { 1200 } else { 400 }) as u64,
                 1 => 20 + e.choose(3000) as u64,
                 2 => 3000 + e.choose(60_000) as u64,
                 _ => 3_600_000,
@@ -256,21 +274,38 @@ impl Check for BarrierAndStatus {
             }
             machines.push(mach.arc());
         }
-        let (out, panics) = run_virtual(async {
+        let body = async {
             wire.mark_start();
             let t0 = tokio::time::Instant::now();
             let status = match timeout_ms {
+                Some(t) if mt => match tokio::time::timeout(Duration::from_millis(t + 6000), run_internet_with_timeout(&machines, Duration::from_millis(t))).await {
+                    Ok(s) => s,
+                    Err(_) => ExitStatus::Status(u32::MAX),
+                },
                 Some(t) => run_internet_with_timeout(&machines, Duration::from_millis(t)).await,
                 None => {
                     // safety net only: an untimed run that should return but does not
-                    match tokio::time::timeout(Duration::from_secs(7200), run_internet(&machines, None)).await {
+                    match tokio::time::timeout(Duration::from_secs(if mt { 10 } else { 7200 }), run_internet(&machines, None)).await {
                         Ok(s) => s,
                         Err(_) => ExitStatus::Status(u32::MAX),
                     }
                 }
             };
             (status, t0.elapsed())
-        });
+        };
+        let (out, panics) = if mt {
+            let (rt, name) = mt_runtime(workers);
+            let out = std::panic::catch_unwind(std::panic::AssertUnwindSafe(|| rt.block_on(body))).ok();
+            // panics up to the return of the run; tearing the runtime down afterwards cancels tasks in arbitrary
+            // order (Machine::start then sees JoinError::Cancelled), which is not part of the run
+            let mut panics = take_mt_panics(&name);
+            panics.extend(take_local_panics());
+            rt.shutdown_timeout(Duration::from_millis(200));
+            let _ = take_mt_panics(&name);
+            (out, panics)
+        } else {
+            run_virtual(body)
+        };
         let (status, elapsed) = out.unwrap_or((ExitStatus::Status(u32::MAX - 1), Duration::ZERO));
         let frames = wire.snapshot();
         let demux = log.lock().unwrap().clone();
@@ -312,6 +347,62 @@ impl Check for BarrierAndStatus {
         if forward_arp {
             // the barrier is held up by Forward's pre-barrier ARP resolution (open known finding); the timing
             // model below assumes the barrier is released when the slowest initialiser is done
+            return Ok(());
+        }
+        if mt {
+            ensure!(status != ExitStatus::Status(u32::MAX), "return_time", "never_returned", "the run did not return within {} (timeout {:?}, {} shutdown requests made)", if timeout_ms.is_some() { "timeout + 6 s" } else { "10 s" }, timeout_ms, st.requests.len());
+            // scheduling slack: between two requests stamped by the same clock, and (larger) against the timeout task
+            // whose sleep starts whenever the runtime first polls it
+            let margin = Duration::from_millis(250);
+            let to_margin = Duration::from_millis(400);
+            let to = timeout_ms.map(Duration::from_millis);
+            match &status {
+                ExitStatus::TimedOut => {
+                    let to = to.ok_or(()).map_err(|_| Failure::new("exit_status", "wrong_status", "TimedOut returned by a run without a timeout".to_string()))?;
+                    if let Some(r) = st.requests.iter().find(|r| r.2 + to_margin < to) {
+                        fail!("exit_status", "wrong_status", "returned TimedOut (timeout {:?}) although a shutdown with status {:?} was requested at {:?} ({} workers)", to, r.1, r.2, workers);
+                    }
+                }
+                other => {
+                    let mine: Option<Option<u32>> = match other {
+                        ExitStatus::Status(n) => Some(Some(*n)),
+                        _ => Some(None),
+                    };
+                    let req = st.requests.iter().filter(|r| Some(r.1) == mine).min_by_key(|r| r.0);
+                    match req {
+                        None => {
+                            // Exited without any request: every shutdown handle was dropped
+                            ensure!(*other == ExitStatus::Exited && st.requests.is_empty() && !keeps_handle, "exit_status", "wrong_status", "returned {:?} which nobody requested (requests {:?}, {} workers)", other, st.requests, workers);
+                        }
+                        Some(w) => {
+                            if let Some(r) = st.requests.iter().find(|r| r.2 + margin < w.2) {
+                                fail!("exit_status", "wrong_status", "returned {:?} requested at {:?} although {:?} was requested at {:?} ({} workers)", other, w.2, r.1, r.2, workers);
+                            }
+                            if let Some(to) = to {
+                                ensure!(to + to_margin >= w.2, "exit_status", "wrong_status", "returned {:?} requested at {:?}, after the timeout of {:?} ({} workers)", other, w.2, to, workers);
+                            }
+                        }
+                    }
+                }
+            }
+            if let Some(to) = to {
+                ensure!(elapsed <= to + Duration::from_secs(2), "return_time", "later_than_timeout_plus_1s", "returned after {:?} with a timeout of {:?} ({} workers)", elapsed, to, workers);
+            }
+            let slow_machines = behaviours.iter().filter(|b| b.iter().any(|x| matches!(x, Behaviour::SlowInit(d) if *d > 0))).count();
+            ctx.nontrivial = (slow_machines >= 2 && senders >= 1 && !frames.is_empty()) || shutters.len() >= 2 || never_reaches || behaviours.iter().flatten().any(|b| *b == Behaviour::NeverReturns);
+            if shutters.len() >= 2 {
+                ctx.class("competing_shutdowns");
+            }
+            if never_reaches {
+                ctx.class("never_reaches_barrier");
+            }
+            if !frames.is_empty() {
+                ctx.class("traffic_after_barrier");
+            }
+            if status == ExitStatus::TimedOut {
+                ctx.class("timed_out");
+            }
+            ctx.class(["", "", "workers_2", "", "workers_4", "", "", "", "workers_8"][workers]);
             return Ok(());
         }
         // (2) status, (3) return time
